@@ -282,6 +282,11 @@ class Base:
         lo = -(2 ** (mb - 1)) if signed_b else 0
         self.add("enum_value", 1, name="BX", value=L("int", str(r.choice([lo, 0, 1]))), owner="Bb", edge="lo")
         self.add("enum_value", 1, name="BY", value=L("int", str(r.choice([hi, hi - 1, 2]))), owner="Bb", edge="hi")
+        # a one-bit enum: the lower boundary of maximum_bits
+        self.add("head", 0, what="enum", name="Tiny", owner="Tiny")
+        self.add("attr", 1, name="maximum_bits", value=L("int", "1"), scope="enum", owner="Tiny", tiny=True)
+        self.add("enum_value", 1, name="TA", value=L("int", "0"), owner="Tiny")
+        self.add("enum_value", 1, name="TB", value=L("int", "1"), owner="Tiny", tiny_hi=True)
         # a fixed-size struct, a bits type, a parameterised dynamic struct --------
         self.add("head", 0, what="struct", name="Fixed", owner="Fixed")
         self.struct_default("Fixed")
@@ -297,6 +302,19 @@ class Base:
         self.add("field", 1, start=L("int", "0"), size=L("int", "32"), tname="Float", name="wf", owner="Wide", inbits=True, scalar=("Float", 32), spare=True)
         self.add("field", 1, start=L("int", "32"), size=L("int", "31"), tname="UInt", name="wu", owner="Wide", inbits=True, scalar=("UInt", 31), spare=True)
         self.add("field", 1, start=L("int", "63"), size=L("int", "1"), tname="Flag", name="wl", owner="Wide", inbits=True, scalar=("Flag", 1), spare=True, last_bit=True)
+        # overlays: a longer field declared AFTER a shorter one that starts at the same / an inner offset
+        self.add("head", 0, what="struct", name="Over", owner="Over")
+        self.struct_default("Over")
+        self.add("field", 1, start=L("int", "0"), size=L("int", "1"), tname="UInt", name="tag", owner="Over")
+        self.add("field", 1, start=L("int", "0"), size=L("int", "8"), tname="UInt", tbits=8, dims=[L("int", "8")], name="raw", owner="Over")
+        self.add("field", 1, start=L("int", "2"), size=L("int", "4"), tname="UInt", name="mid", owner="Over")
+        self.add("head", 0, what="struct", name="Part", owner="Part")
+        self.struct_default("Part")
+        self.add("field", 1, start=L("int", "0"), size=L("int", "4"), tname="UInt", name="pa", owner="Part")
+        self.add("field", 1, start=L("int", "2"), size=L("int", "4"), tname="UInt", name="pb", owner="Part")
+        self.add("head", 0, what="bits", name="Ob", owner="Ob")
+        self.add("field", 1, start=L("int", "0"), size=L("int", "4"), tname="UInt", name="lo", owner="Ob", inbits=True)
+        self.add("field", 1, start=L("int", "0"), size=L("int", "16"), tname="UInt", name="all", owner="Ob", inbits=True)
         self.add("head", 0, what="struct", name="Unused", owner="Unused", spare=True)
         self.struct_default("Unused")
         self.add("field", 1, start=L("int", "0"), size=L("int", "1"), tname="UInt", name="uu", owner="Unused", scalar=("UInt", 8), spare=True)
@@ -309,7 +327,11 @@ class Base:
         self.add("field", 1, start=L("int", "21"), size=L("int", "8"), tname="Wide", name="uw", owner="Unused", spare=True)
         self.add("anon_bits", 1, start=L("int", "29"), size=L("int", "2"), owner="Unused", spare=True)
         self.add("field", 2, start=L("int", "0"), size=L("int", "1"), tname="Flag", name="ab0", owner="Unused", inbits=True, scalar=("Flag", 1), spare=True)
-        self.add("field", 2, start=L("int", "1"), size=L("int", "15"), tname="UInt", name="ab1", owner="Unused", inbits=True, scalar=("UInt", 15), spare=True)
+        self.add("field", 2, start=L("int", "1"), size=L("int", "14"), tname="UInt", name="ab1", owner="Unused", inbits=True, scalar=("UInt", 14), spare=True)
+        self.add("field", 2, start=L("int", "15"), size=L("int", "1"), tname="Tiny", name="abt", owner="Unused", inbits=True, enumfield="Tiny", spare=True)
+        self.add("field", 1, start=L("int", "31"), size=L("int", "8"), tname="Over", name="uo", owner="Unused", spare=True)
+        self.add("field", 1, start=L("int", "39"), size=L("int", "6"), tname="Part", name="up", owner="Unused", spare=True)
+        self.add("field", 1, start=L("int", "45"), size=L("int", "2"), tname="Ob", name="uob", owner="Unused", spare=True)
         self.add("head", 0, what="struct", name="Inner", params=[("k", "Aa"), ("n", "UInt:8")], owner="Inner")
         self.struct_default("Inner")
         ienv = Env()
@@ -791,6 +813,21 @@ def c14_cases(base, rng):
     edit("enum-field-wider-than-maximum-bits", named("ue"), setf(size=I(3)))
     edit("enum-field-width-0", named("g2"), setf(size=I(0)))
     edit("boundary-ok:enum-field-narrower", named("g2"), setf(size=I(2)), ok=True)
+    tmb = find(lambda l: l.kind == "attr" and l.f.get("tiny"))[0]
+    thi = find(lambda l: l.kind == "enum_value" and l.f.get("tiny_hi"))[0]
+    edit("enum-value-above-range:1-bit", thi, setf(value=I(2)))
+    edit("enum-maximum-bits-0:one-bit-enum", tmb, setf(value=I(0)))
+    edit("boundary-ok:enum-maximum-bits-2", tmb, setf(value=I(2)), ok=True)
+    edit("boundary-ok:enum-maximum-bits-63", mbl, setf(value=I(63)), ok=True)
+    edit("enum-field-wider-than-maximum-bits:1-bit", named("abt"), setf(size=I(2), start=I(14)))
+    # ---- overlays ----
+    overh = find(lambda l: l.kind == "head" and l.f["name"] == "Over")[0]
+    insert_after("boundary-ok:fixed-size-attribute-equal:overlay", overh + (0 if base.module_default else 1), [Line("attr", 1, name="fixed_size_in_bits", value="64")], ok=True)
+    parth = find(lambda l: l.kind == "head" and l.f["name"] == "Part")[0]
+    insert_after("fixed-size-attribute-mismatch:overlay", parth + (0 if base.module_default else 1), [Line("attr", 1, name="fixed_size_in_bits", value="32")])
+    edit("overlay-struct-in-too-small-field", named("uo"), setf(size=I(1)))
+    edit("overlay-struct-in-too-small-field", named("up"), setf(size=I(4)))
+    edit("overlay-bits-in-too-small-field", named("uob"), setf(size=I(1)))
     # ---- bits ----
     edit("bits-byte-oriented-member", named("g3"), setf(tname="Fixed", size=I(32), start=I(16)))
     edit("bits-not-fixed-size", named("g3"), setf(tname="UInt", tbits=1, dims=[None], size=L("int", "g1")), head=True)
@@ -955,4 +992,72 @@ def default_scope_cases(rng, n=6):
                             cls="C14", alt_lines=bad[1:]))
         else:
             out.append(Case(lines, "boundary-ok:default-scope", 1, doc_typed=True, doc_realisable=True, cls="C14"))
+    return out
+
+
+# ----------------------------------------------------------------------------
+# back-end-qualified attributes
+# ----------------------------------------------------------------------------
+FOREIGN_VALUES = {
+    "byte_order": (['"BigEndian"', '"LittleEndian"', '"Null"'], ["3", "true", '"MiddleEndian"']),
+    "fixed_size_in_bits": (["8", "24"], ['"x"', "true"]),
+    "maximum_bits": (["2", "1"], ['"8"', "false"]),
+    "is_signed": (["true", "false"], ["1", '"yes"']),
+    "requires": (["false", "true"], ['"abc"', "3"]),
+    "text_output": (['"Skip"', '"Emit"'], ["7", '"Maybe"']),
+    "addressable_unit_size": (["8", "1"], ['"q"', "true"]),
+}
+
+
+def backend_cases(base, rng, n=24):
+    """A back-end-qualified attribute is not a front-end attribute, whatever its name and value: with the
+    qualifier declared in [expected_back_ends] the module stays realisable and every effective front-end
+    attribute (byte order, enum width/sign, fixed size) stays what it was; an undeclared qualifier is an error."""
+    lines = base.lines
+    out = []
+
+    def idx(pred):
+        r = [i for i, l in enumerate(lines) if pred(l)]
+        return r[0] if r else None
+    first_type = idx(lambda l: l.kind == "head")
+    sites = {   # scope -> (insert after this line index, indent)
+        "module": (first_type - 1, 0),
+        "struct": (idx(lambda l: l.kind == "head" and l.f["name"] == "Fixed"), 1),
+        "bits": (idx(lambda l: l.kind == "head" and l.f["name"] == "Flags"), 1),
+        "enum": (idx(lambda l: l.kind == "head" and l.f["name"] == "Bb"), 1),
+        "enum-value": (idx(lambda l: l.kind == "enum_value" and l.f.get("edge") == "lo"), 2),
+        "field": (idx(lambda l: l.kind == "field" and l.f.get("name") == "ui"), 2),
+        "virtual-field": (idx(lambda l: l.kind == "let" and l.owner == "Main"), 2),
+    }
+    combos = [(sc, nm) for sc in sites for nm in FOREIGN_VALUES]
+    rng.shuffle(combos)
+
+    def build(sc, nm, backend, declared, value, default):
+        c = base.case()
+        after, indent = sites[sc]
+        new = Line("attr", indent, name=nm, value=value, default=default, backend=backend)
+        c.lines.insert(after + 1, new)
+        shift = 0
+        if declared:
+            c.lines.insert(0, Line("attr", 0, name="expected_back_ends", value='"%s"' % declared))
+            shift = 1
+        return c.lines, after + 2 + shift
+
+    for k, (sc, nm) in enumerate(combos[:n]):
+        good, bad = FOREIGN_VALUES[nm]
+        value = rng.choice(good if k % 2 == 0 else bad)
+        default = rng.random() < 0.4
+        ls, line = build(sc, nm, "xyz", "cpp, xyz", value, default)
+        out.append(Case(ls, "boundary-ok:foreign-back-end-attribute:%s" % sc, line, doc_typed=True, doc_realisable=True, cls="C14"))
+    for sc, nm in combos[n:n + 6]:
+        good, bad = FOREIGN_VALUES[nm]
+        ls, line = build(sc, nm, "cpp", None, rng.choice(good + bad), rng.random() < 0.3)
+        # the front end accepts it (the C++ back end, which owns the qualifier, rejects unknown names later)
+        out.append(Case(ls, "boundary-ok:cpp-qualified-front-end-name:%s" % sc, line, doc_typed=True, doc_realisable=True, cls="C14"))
+    for sc, nm in combos[n + 6:n + 10]:
+        good, bad = FOREIGN_VALUES[nm]
+        ls, line = build(sc, nm, "xyz", None, rng.choice(good), False)
+        out.append(Case(ls, "attribute-undeclared-back-end", line, doc_typed=True, doc_realisable=False, cls="C14"))
+        ls, line = build(sc, nm, "abc", "cpp, xyz", rng.choice(good), False)
+        out.append(Case(ls, "attribute-undeclared-back-end", line, doc_typed=True, doc_realisable=False, cls="C14"))
     return out
